@@ -25,7 +25,7 @@ import (
 func init() {
 	Registry["C16"] = &Check{
 		Scenarios: c16Scenarios,
-		Rule: "the client side of a multistream association dialled with sm.Client (watchdog on / off, WatchdogStream 0 / 5) answers the peer's DWR on the stream it arrived on; the version octet of the request rotates over {1, 0, 2, 255}: the answer is built as a version-1 message; requests no handler is registered for (STR, CCR, RAR, an undefined command; P bit set / clear; T bit) on a bare ServeMux and on a state machine after the handshake: whatever the library sends back must mirror the request; complete grid: hop-by-hop and end-to-end ids from {0,1,2^31,2^32-1}^2 x all 256 command flag bytes x every (application, command) of the embedded dictionaries x result code {0 (none asked), 2001, 5012, 2^32-1} through Message.Answer; a second CER on a connection whose handshake has completed (if it is answered, the answer must mirror it); the state machine's success CEA, each failure CEA (5010, 5017, 5012, and 5012 for a CER that cannot be unmarshalled because the connection's dictionary lacks an AVP the CER struct names) and DWA for the same id grid over an in-memory transport; the same requests arriving on SCTP streams {0,1,5,15} of the in-memory multistream backend (and on a stream-less transport), answered by a handler through Answer().WriteTo (answers of ordinary size and of 65400..200000 octets, around and beyond 64 KiB; requests with one AVP and requests that consist of their header only; requests that are first relayed - the received message written with explicit other streams to an upstream multistream writer that accepts or refuses - and then answered; replies on a connection whose writer stream the application has pinned with SetWriterStream) and by the state machine: the backend must record the answer on the request's stream, also when the answer to a request is written later, while a request from another stream is being handled (all 16 stream pairs), also when the first 1 or 2 write attempts of that answer fail with a temporary error and are retried (WriteToWithRetry); and two application goroutines answering requests of different streams concurrently (every schedule up to preemption bound 2, thorough 3), on an association attached with NewConn and on one accepted by a Server with ReadTimeout and WriteTimeout set.",
+		Rule: "every answer of the grid is edited in place by its owner after it was checked (Result-Code AVP overwritten, AVP list extended): later answers are unaffected; the client side of a multistream association dialled with sm.Client (watchdog on / off, WatchdogStream 0 / 5) answers the peer's DWR on the stream it arrived on; the version octet of the request rotates over {1, 0, 2, 255}: the answer is built as a version-1 message; requests no handler is registered for (STR, CCR, RAR, an undefined command; P bit set / clear; T bit) on a bare ServeMux and on a state machine after the handshake: whatever the library sends back must mirror the request; complete grid: hop-by-hop and end-to-end ids from {0,1,2^31,2^32-1}^2 x all 256 command flag bytes x every (application, command) of the embedded dictionaries x result code {0 (none asked), 2001, 5012, 2^32-1} through Message.Answer; a second CER on a connection whose handshake has completed (if it is answered, the answer must mirror it); the state machine's success CEA, each failure CEA (5010, 5017, 5012, and 5012 for a CER that cannot be unmarshalled because the connection's dictionary lacks an AVP the CER struct names) and DWA for the same id grid over an in-memory transport; the same requests arriving on SCTP streams {0,1,5,15} of the in-memory multistream backend (and on a stream-less transport), answered by a handler through Answer().WriteTo (answers of ordinary size and of 65400..200000 octets, around and beyond 64 KiB; requests with one AVP and requests that consist of their header only; requests that are first relayed - the received message written with explicit other streams to an upstream multistream writer that accepts or refuses - and then answered; replies on a connection whose writer stream the application has pinned with SetWriterStream) and by the state machine: the backend must record the answer on the request's stream, also when the answer to a request is written later, while a request from another stream is being handled (all 16 stream pairs), also when the first 1 or 2 write attempts of that answer fail with a temporary error and are retried (WriteToWithRetry); and two application goroutines answering requests of different streams concurrently (every schedule up to preemption bound 2, thorough 3), on an association attached with NewConn and on one accepted by a Server with ReadTimeout and WriteTimeout set.",
 		Assume: []string{"single default schedule per exchange", "in-memory SCTP backend (hook diam/sctp_verif.go)"},
 		QuickBudget: 120, ThoroughBudget: 900,
 	}
@@ -120,6 +120,13 @@ func c16Grid(r *SeqResult, hbh uint32) {
 						v = "no result code asked for but the answer carries AVPs"
 					case int(a.Header.MessageLength) != a.Len():
 						v = "MessageLength inconsistent"
+					}
+					// the application then edits the answer it was given (downgrades it, adds to it): an
+					// answer is the caller's own object and shares nothing with answers built later
+					if v == "" && len(a.AVP) > 0 {
+						a.AVP[0].Data = datatype.Unsigned32(5012)
+						a.AVP[0].Flags = 0
+						a.AVP = append(a.AVP, a.AVP[0])
 					}
 					if r.Sample == "" && fl == 0xC0 && rc == 2001 {
 						r.Sample = fmt.Sprintf("request app=%d cmd=%d flags=%#x hbh=%#x e2e=%#x -> Answer(%d) header %s", cmd[0], cmd[1], fl, hbh, ee, rc, a.Header)
